@@ -1,4 +1,5 @@
 """C20 -- determinism and thread-safety: effect (purity) analysis of the whole crate."""
+import roles
 import json
 import os
 import re
@@ -76,18 +77,19 @@ def rules(fx, rep):
     derived_unsafe = sorted(set(i['trait'] for i in fx.impls if i.get('safety') == 'Unsafe'))
     rep.check(set(derived_unsafe) <= {'std::clone::TrivialClone'}, 'PURE', 'derive-generated-unsafe-impls', 'only the compiler\'s TrivialClone marker from #[derive(Clone)]', 'unsafe impls of %s' % derived_unsafe)
     ub = [u for u in fx.unsafe_blocks if u['source'] == 'UserProvided']
-    okub = len(ub) == 1 and ub[0]['owner'] == 'bls12_381::isogeny::eval_iso'
-    rep.check(okub, 'PURE', 'unsafe-blocks', 'exactly one unsafe block: eval_iso writes back through as_tuple_mut of its own &mut argument',
+    evalr = roles.roles(fx).get('iso_evaluator')
+    okub = len(ub) == 1 and evalr is not None and ub[0]['owner'] == evalr
+    rep.check(okub, 'PURE', 'unsafe-blocks', 'exactly one unsafe block: the isogeny evaluator writes back through as_tuple_mut of its own &mut argument',
               'unsafe blocks: %s' % [(u['owner'], u['span']) for u in ub])
     if okub:
         # what the block may do: only the call of as_tuple_mut on parameter 1
-        b = fx.body('bls12_381::isogeny::eval_iso')
+        b = fx.body(evalr)
         o = Origin(b)
         ucalls = [t for _, t in b.calls() if (callee(t) or {}).get('name') == 'as_tuple_mut']
         ok = len(ucalls) == 1 and strip(o.operand(ucalls[0]['args'][0])) == ('param', 1)
         unsafe_callees = [t for _, t in b.calls() if (fx.fn((callee(t) or {}).get('res') or (callee(t) or {}).get('def') or '') or {}).get('unsafe')]
         rep.check(ok and len(unsafe_callees) == 1, 'PURE', 'unsafe-block-content', 'the only unsafe operation is as_tuple_mut(pt) on the function\'s own exclusive reference',
-                  'unsafe operations in eval_iso: %s' % [(callee(t) or {}).get('def') for t in unsafe_callees])
+                  'unsafe operations in the isogeny evaluator: %s' % [(callee(t) or {}).get('def') for t in unsafe_callees])
     uf = sorted(p for p, f in fx.fns.items() if f.get('unsafe'))
     rep.check(set(uf) <= UNSAFE_FN_ALLOW, 'PURE', 'unsafe-fns', '%d unsafe fns, all raw constructors / coordinate accessors (no pointer or FFI work inside)' % len(uf),
               'new unsafe fns: %s' % sorted(set(uf) - UNSAFE_FN_ALLOW))
